@@ -124,6 +124,21 @@ pub fn run(ctx: &Ctx, ev: &mut Ev) {
             }
         }
     }
+    // (e) huge texts: lengths on both sides of 2^16 (thorough: 2^17, 2^20): mappable text of this encoder with unmappable
+    // characters next to the 2^16 boundary and at both ends
+    if ctx.want("huge") && !tiny {
+        let sizes: Vec<usize> = if th { vec![65_535, 65_536, 65_537, 70_001, 131_073, (1 << 20) + 1] } else { vec![65_535, 65_536, 65_537, 70_001] };
+        for &enc in encoder_families().iter() { for &n in sizes.iter() {
+            if !ev.mine() { continue; }
+            let alpha = encoder_alpha(enc);
+            let mut base: Vec<u32> = vec![0x61, 0x20];
+            for a in alpha.iter() { if *a >= 0x80 && !is_lone(*a) && base.len() < 6 && !model_items(enc, &[*a]).iter().any(|i| matches!(i, EItem::U(_))) { base.push(*a); } }
+            let mut t: Vec<u32> = (0..n).map(|i| base[i % base.len()]).collect();
+            c.check(ev, enc, &t, true, true);
+            for p in [0usize, 65_534, 65_535, 65_536, n - 1] { if p < n { t[p] = if p % 2 == 0 { 0x1F4A9 } else { 0x2603 }; } }
+            c.check(ev, enc, &t, true, true);
+        } }
+    }
     // (d) seeded random texts (long ASCII runs at stride boundaries + alphabet characters)
     if ctx.want("random") {
         let mut r = ctx.rng(3);
